@@ -28,6 +28,13 @@ def loader_registry(repo: Repo) -> dict[bytes, FuncInfo]:
     return out
 
 
+def dispatch_names(repo: Repo) -> set[str]:
+    from ..util import xtext
+    uload = repo.func(f"{GB}.Unserializer.load")
+    return {unparse(c.func) for c in repo.calls_in(uload) if len(c.args) == 1 and unparse(c.args[0]) == "self" and isinstance(c.func, ast.Name)
+            and "num2func" in xtext(repo, uload, c.func)}
+
+
 def make_effects(repo: Repo) -> tuple[Effects, dict[str, bool], dict[bytes, FuncInfo]]:
     f_load = repo.func(f"{GB}.load")
     ctor_calls = [c for c in repo.calls_in(f_load) if isinstance(c.func, ast.Name) and c.func.id == "Unserializer"]
@@ -37,11 +44,13 @@ def make_effects(repo: Repo) -> tuple[Effects, dict[str, bool], dict[bytes, Func
     nulls = init_field_nullness(repo, init, ctor_calls[0], f_load)
     reg = loader_registry(repo)
     uload = repo.func(f"{GB}.Unserializer.load")
-    dynamic = {(uload.qualname, "loader"): sorted(set(reg.values()), key=lambda f: f.qualname)}
-    # the dispatch variable must be fed from the registry
-    if not any(isinstance(n, ast.Assign) and unparse(n.targets[0]) == "loader" and "num2func" in unparse(n.value)
-               for n in repo.own_nodes(uload)):
-        raise AnalysisError("Unserializer.load: dispatch `loader = self.num2func[opcode]` not recognised")
+    from ..util import xtext
+    # the dispatch call: F(self) where F's value comes from the registry
+    disp = [c for c in repo.calls_in(uload) if len(c.args) == 1 and unparse(c.args[0]) == "self" and isinstance(c.func, ast.Name)
+            and "num2func" in xtext(repo, uload, c.func)]
+    if not disp:
+        raise AnalysisError("Unserializer.load: dispatch `loader = self.num2func[opcode]; loader(self)` not recognised")
+    dynamic = {(uload.qualname, unparse(c.func)): sorted(set(reg.values()), key=lambda f: f.qualname) for c in disp}
     eff = Effects(repo, field_null=nulls, dynamic=dynamic)
     return eff, nulls, reg
 
@@ -90,7 +99,7 @@ def check(ctx: Ctx) -> None:
 
     # ---- C13.b success only via STOP
     cfg = build_cfg(repo, uload, Oracle(repo, uload, precise=True,
-                                        call_raises=lambda c, f: [("_Stop", True), ("LoadError", True)] if unparse(c.func) == "loader" else None))
+                                        call_raises=lambda c, f: [("_Stop", True), ("LoadError", True)] if unparse(c.func) in dispatch_names(repo) else None))
     with ctx.obligation("C13.b", "success-only-via-STOP") as ob:
         rets = [n for n in cfg.nodes if n.kind == "stmt" and isinstance(n.ast, ast.Return) and n.id in cfg.live()]
         ob.require(bool(rets), "no return in Unserializer.load")
@@ -111,13 +120,20 @@ def check(ctx: Ctx) -> None:
         for r in rets:
             in_stop = any(isinstance(a, ast.ExceptHandler) and a.type is not None and unparse(a.type) == "_Stop" for a in repo.ancestors(r.ast))
             atoms_ = guard_atoms(cfg, r.id)
-            one = any((a.replace(" ", "") == "len(self.stack)==1" and pol) for a, pol, _ in atoms_)
+            from ..util import xtext
+            def _stack_len_is_one(t, pol):
+                if isinstance(t.ast, ast.Compare) and len(t.ast.ops) == 1:
+                    txt = xtext(repo, uload, t.ast).replace(" ", "")
+                    return (txt == "len(self.stack)==1" and pol) or (txt == "len(self.stack)!=1" and not pol)
+                return False
+            one = any((a.replace(" ", "") == "len(self.stack)==1" and pol) for a, pol, _ in atoms_) or any(
+                _stack_len_is_one(t, lab == "true") for (t, lab) in cfg.guards(r.id) if t.kind == "test")
             ob.site(uload, r.ast, "return inside `except _Stop`, guarded by len(stack)==1", in_stop_handler=in_stop, guard=one)
             if not in_stop:
                 ob.violation(uload, r.ast, "Unserializer.load returns a value outside the STOP handler")
             if not one:
                 ob.violation(uload, r.ast, "the value is returned without checking that exactly one object is on the stack")
-            if unparse(r.ast.value) not in ("self.stack.pop(0)", "self.stack.pop()", "self.stack[0]", "self.stack[-1]"):
+            if xtext(repo, uload, r.ast.value) not in ("self.stack.pop(0)", "self.stack.pop()", "self.stack[0]", "self.stack[-1]"):
                 ob.violation(uload, r.ast, "Unserializer.load does not return the single stack element")
 
     # ---- C13.c termination
@@ -143,7 +159,7 @@ def check(ctx: Ctx) -> None:
         ob.site(uload, head.ast, "every loop iteration reads one opcode byte and leaves on an empty read")
         if p is not None:
             ob.violation(uload, head.owner, "an iteration of the dispatch loop can complete without consuming input", path=cfg.describe_path(p))
-        dispatch = cfg_nodes_with_call(cfg, lambda c: unparse(c.func) == "loader")
+        dispatch = cfg_nodes_with_call(cfg, lambda c: unparse(c.func) in dispatch_names(repo))
         for d in dispatch:
             if not any(cfg.dominated_by(d.id, t.id) for (_n, t) in reads):
                 ob.violation(uload, d.ast, "a loader is dispatched without a preceding non-empty opcode read")
@@ -206,6 +222,6 @@ def check(ctx: Ctx) -> None:
             ob.site(fi, node, "allocation sized by an input length field", bounded=bounded)
             if not bounded:
                 ob.violation(fi, node, "allocation sized by an untrusted length field without a dominating bound against the remaining input "
-                                       "(a 9-byte input can demand gigabytes)")
+                                       "(a 9-byte input can demand gigabytes)", construct="sequence repeated <length field read from the input> times")
         ob.note("prefix argument: success needs STOP with a 1-element stack (C13.b); a strict prefix of a valid dump lacks the final STOP, "
                 "every read is exact-length or followed by an opcode read that raises EOFError")
